@@ -351,7 +351,7 @@ Proof.
   pose proof (NoDup_incl_length Hnd Hincl) as Hlen.
   assert (Hl1 : length l1 = N.to_nat (hi - lo)) by (unfold l1; rewrite map_length, seq_length; reflexivity).
   rewrite Hl1 in Hlen. clear - Hlen. unfold len. rewrite <- (N2Nat.id (hi - lo)).
-  generalize dependent (N.to_nat (hi - lo)). intros n Hn. unfold slot in *. lia.
+  generalize dependent (N.to_nat (hi - lo)). intros n Hn. lia.
 Qed.
 
 Lemma filter_length_le {A} (f : A -> bool) l : (length (filter f l) <= length l)%nat.
